@@ -23,6 +23,7 @@
 #include <AIToolbox/POMDP/Utils.hpp>
 #include <AIToolbox/POMDP/Algorithms/IncrementalPruning.hpp>
 #include <AIToolbox/POMDP/Environments/TigerProblem.hpp>
+#include <cctype>
 #include <cfloat>
 #include <limits>
 
@@ -357,10 +358,27 @@ template <class T> static void runObject(const std::string & kind, Rng & rng, Sh
         l.emit();
     }
     {   // every truncation point
-        Line l; l << "C17" << "trunc" << head << "|" << hexOf(text) << "|" << text.size();
+        Line l; l << "C17" << "trunc" << head << "|" << hexOf(text) << "|" << exactOf(x) << "|" << text.size();
         for (size_t k = 0; k < text.size(); ++k) outcome(l, d0, d0bits, text.substr(0, k));
         l.emit();
         std::printf("#stat trunc_points %zu\n", text.size());
+    }
+    {   // the file with its trailing white space removed: the last token ends exactly at end-of-input (only eofbit is set
+        // when the last number / separator has been extracted).  With and without a single trailing blank.
+        std::string trimmed = text;
+        while (!trimmed.empty() && std::isspace((unsigned char)trimmed.back())) trimmed.pop_back();
+        for (const char * tail : {"", " "}) {
+            Line l; l << "C17" << "trim" << head << "|" << hexOf(trimmed + tail) << "|" << exactOf(x) << "|";
+            T dest = cloneOf(d0);
+            std::string rem;
+            int sig = loadInto(dest, trimmed + tail, &rem);
+            long dd = sig == 0 ? decisionDiffs(x, dest, rng, sh) : 0;
+            l << dd << (sig == 0 && bitsOf(dest) == bitsOf(x));
+            if (sig == 0) { l << "g" << hexOf(rem) << exactOf(dest); }
+            else { bool same = bitsOf(dest) == d0bits; l << (sig == 1 ? (same ? "f" : "F") : (same ? "t" : "T")); }
+            l.emit();
+        }
+        std::printf("#stat trimmed_loads 2\n");
     }
     {   // single-token corruptions
         auto toks = splitTokens(text);
@@ -372,7 +390,7 @@ template <class T> static void runObject(const std::string & kind, Rng & rng, Sh
             for (size_t i = 0; i < cap - 16; ++i) pos.push_back(8 + rng.below(toks.size() - 16));
             for (size_t i = toks.size() - 8; i < toks.size(); ++i) pos.push_back(i);
         }
-        Line l; l << "C17" << "corrupt" << head << "|" << hexOf(text) << "|" << (size_t)(pos.size() * kNCorr);
+        Line l; l << "C17" << "corrupt" << head << "|" << hexOf(text) << "|" << exactOf(x) << "|" << (size_t)(pos.size() * kNCorr);
         for (size_t i : pos) for (int c = 0; c < kNCorr; ++c) {
             l << i << kCorr[c];
             outcome(l, d0, d0bits, joinTokens(corruptTokens(toks, i, c)));
@@ -390,7 +408,7 @@ template <class T> static void runByteCorruptions(const std::string & kind, Rng 
     if (text.empty()) return;
     const std::string d0bits = bitsOf(d0);
     size_t n = tier == "thorough" ? 60 : 24;
-    Line l; l << "C17" << "bcorrupt" << (kind + " " + std::to_string(sh.S) + " " + std::to_string(sh.A) + " " + std::to_string(sh.O)) << "|" << hexOf(text) << "|" << n;
+    Line l; l << "C17" << "bcorrupt" << (kind + " " + std::to_string(sh.S) + " " + std::to_string(sh.A) + " " + std::to_string(sh.O)) << "|" << hexOf(text) << "|" << exactOf(x) << "|" << n;
     for (size_t i = 0; i < n; ++i) {
         size_t pos = rng.below(text.size());
         char c = kBytes[rng.below(sizeof kBytes)];
